@@ -80,12 +80,21 @@ def make_traj(md, rng, n_frames, n_atoms, force_ortho=None):
         kinds.append(k); vecs.append(v)
     vecs = np.array(vecs, dtype=np.float32)
     xyz = np.zeros((n_frames, n_atoms, 3), dtype=np.float32)
+    # a quarter of the trajectories hold a compact group of atoms in every frame (a solute cut out of its solvent): every coordinate range
+    # is below half the shortest cell edge, and in a skewed cell a periodic image can still be the nearer one
+    compact = rng.random() < 0.25
     for f in range(n_frames):
         span = float(vecs[f].max())
+        if compact:
+            side = 0.49 * float(np.linalg.norm(vecs[f].astype(np.float64), axis=1).min())
+            origin = np.array([rng.uniform(-1, 1) * span for _ in range(3)])
         for a in range(n_atoms):
-            mode = rng.random()
-            scale = 1.0 if mode < 0.4 else (6.0 if mode < 0.8 else 0.02)
-            p = np.array([rng.uniform(-scale, scale) * span for _ in range(3)])
+            if compact:
+                p = origin + np.array([rng.choice([0.0, 1.0, rng.random()]) * side for _ in range(3)])
+            else:
+                mode = rng.random()
+                scale = 1.0 if mode < 0.4 else (6.0 if mode < 0.8 else 0.02)
+                p = np.array([rng.uniform(-scale, scale) * span for _ in range(3)])
             xyz[f, a] = np.round(p * GRID) / GRID
     t = md.Trajectory(xyz, top)
     t.unitcell_vectors = vecs
